@@ -168,6 +168,7 @@ func Build(s *Spec) (*Fixture, error) {
 	}
 	fx.badBytes = [][]byte{{}, {0x04, 0x01}, bytes.Repeat([]byte{0xff}, 33), bytes.Repeat([]byte{0x30}, 70)}
 	if s.Cold {
+		fx.addSpareCapacity()
 		return fx, nil
 	}
 	for i, b := range s.PrivBytes {
@@ -228,6 +229,7 @@ func Build(s *Spec) (*Fixture, error) {
 	fx.sigRec = append(fx.sigRec, make([]byte, 65), append(append(append([]byte(nil), fx.sigRec[0][:32]...), nBytes...), 0))
 	fx.sigASN1 = append(fx.sigASN1, fx.sigASN1[0][:len(fx.sigASN1[0])-1], []byte{0x30, 0x06, 0x02, 0x01, 0x00, 0x02, 0x01, 0x01})
 	fx.sigBIP66 = append(fx.sigBIP66, fx.sigASN1[0])
+	fx.addSpareCapacity()
 	// a public key that exists only as a public key
 	if extra, err := secec.NewPublicKey(ref.BaseMul(big.NewInt(424242)).Compressed()); err == nil {
 		fx.pubs = append(fx.pubs, extra)
@@ -291,4 +293,19 @@ func (fx *Fixture) ObserveRaw() string {
 		fmt.Fprintf(&sb, "pt%d=%x%x%x%v;", i, x, y, z, v)
 	}
 	return sb.String()
+}
+
+// addSpareCapacity gives every shared byte string its own backing array with
+// spare capacity behind its length: a library that appends to a caller's
+// slice then writes into memory that all callers share.
+func (fx *Fixture) addSpareCapacity() {
+	for _, group := range []*[][]byte{&fx.digests, &fx.msgs, &fx.dsts, &fx.sigASN1, &fx.sigCompact, &fx.sigRec, &fx.sigBIP66, &fx.schSigs, &fx.pubEncs, &fx.privEncs, &fx.badBytes} {
+		ng := make([][]byte, len(*group))
+		for i, b := range *group {
+			nb := make([]byte, len(b), len(b)+96)
+			copy(nb, b)
+			ng[i] = nb
+		}
+		*group = ng
+	}
 }
